@@ -126,4 +126,39 @@ Definition mw_request (sk : secret) (ex : expiry) (now : Z) (incoming : received
       end
   | _ => (given, if modified then Some after else None)
   end.
+
+(* ---------------- histories of one client ---------------- *)
+(* the client keeps the last cookie it was sent (its jar) and presents it on the next request;
+   a tampering step replaces the jar by anything at all *)
+Inductive hstep := HReq (now : Z) (ops : list cop) | HTamper (r : received).
+
+Definition client_step (sk : secret) (ex : expiry) (jar : received) (now : Z) (ops : list cop) : received * dict :=
+  let '(given, out) := mw_request sk ex now jar ops in
+  (match out with Some d => serialize sk d | None => jar end, given).
+
+(* the cookie contents the endpoint is given at each request of the history *)
+Fixpoint run_history (sk : secret) (ex : expiry) (jar : received) (h : list hstep) : list dict :=
+  match h with
+  | [] => []
+  | HReq now ops :: r => let '(jar', given) := client_step sk ex jar now ops in given :: run_history sk ex jar' r
+  | HTamper x :: r => run_history sk ex x r
+  end.
+
+(* the specification: a plain dictionary and the time after which it is forgotten *)
+Definition spec_state := (dict * option Z)%type.
+Definition spec_given (now : Z) (s : spec_state) : dict :=
+  match snd s with
+  | Some st => if (st <? now)%Z then [] else fst s
+  | None => fst s
+  end.
+Fixpoint spec_history (ex : expiry) (s : spec_state) (h : list hstep) : list dict :=
+  match h with
+  | [] => []
+  | HReq now ops :: r =>
+      let g := spec_given now s in
+      g :: spec_history ex (fst (apply_ops ops g), match ex with ENumeric secs => Some (now + secs)%Z | _ => None end) r
+  | HTamper _ :: r => spec_history ex ([], None) r
+  end.
+
+Definition op_key (o : cop) : option string := match o with CSet k _ => Some k | CDel k => Some k | CClear => None end.
 End Cookie.
